@@ -564,6 +564,22 @@ fn run(scn: &Scn, ctx: &mut Ctx) -> Result<(), Violation> {
         let notif_before = s.tui.verif_notification().is_some();
         let input_before: String = s.tui.verif_input_field().current().iter().collect();
         let what = format!("{:?} with input {:?}", e, input_before);
+        // workload restriction: the simulated user does not submit `next N` with an N that would
+        // keep the session busy for minutes (the command is executed faithfully, N clock triggers;
+        // that is slow, not wrong). Such an Enter is dropped from the script.
+        if matches!(e, Ev::Key(k) if k == "Enter") {
+            let t = input_before.trim_matches(|c| c == ' ' || c == '\t').to_ascii_lowercase();
+            if let Some(rest) = t.strip_prefix("next") {
+                let digits: String = rest.trim_start_matches(|c| c == ' ' || c == '\t').chars().take_while(|c| c.is_ascii_digit()).collect();
+                if digits.len() > 5 || digits.parse::<u64>().map(|n| n > 20_000).unwrap_or(false) {
+                    ctx.cov.probe("enter-dropped(unbounded next N)");
+                    continue;
+                }
+            }
+        }
+        if crate::lockstep::TRACE.load(std::sync::atomic::Ordering::Relaxed) {
+            eprintln!("  event#{} {}", i, what);
+        }
         let event = match e {
             Ev::Char(c) => Some(Event::Key(KeyEvent { code: KeyCode::Char(*c), modifiers: KeyModifiers::empty() })),
             Ev::Ctrl(c) => Some(Event::Key(KeyEvent { code: KeyCode::Char(*c), modifiers: KeyModifiers::CONTROL })),
@@ -859,7 +875,7 @@ pub fn command_line(rng: &mut Rng) -> String {
                 }
                 _ => {
                     l.push_str(sp(rng));
-                    l.push_str(*rng.pick(&["99999999999999999999", "x", "-1", "0x10", "1.5"]));
+                    l.push_str(*rng.pick(&["99999999999999999999999", "x", "-1", "0x10", "1.5"]));
                 }
             }
         }
@@ -966,8 +982,14 @@ impl Check for C17 {
         if rng.chance(1, 6) {
             events.push(if rng.bool() { Ev::Ctrl('c') } else { Ev::Line("quit".into()) });
         }
+        let autorun = *rng.pick(&[0u32, 1, 7, 100, 100, 1000, 307_200 / 24]);
+        if autorun > 1000 {
+            // a frame's worth of auto-run cycles can cost 4 096 edges each (Assembly mode on an
+            // undefined opcode): keep such sessions short so that a run stays bounded
+            events.truncate(20);
+        }
         let init = if rng.chance(1, 3) { [rng.u8(), rng.u8(), rng.u8(), rng.u8(), rng.u8(), rng.u8()] } else { [0; 6] };
-        Scn { w, h, preload: rng.chance(1, 3), autorun: *rng.pick(&[0u32, 1, 7, 100, 100, 1000, 307_200 / 24]), events, init }
+        Scn { w, h, preload: rng.chance(1, 3), autorun, events, init }
     }
     fn execute(&self, scn: &Scn, ctx: &mut Ctx) -> Result<(), Violation> {
         run(scn, ctx)
